@@ -222,13 +222,13 @@ theorem clusterInputs_budget_conservation (relay : Int) (maxInputs : Nat) (l : L
 
 /-- two inputs already offered at 5000 and 2000 sat/kw, the lower one sorted later (lower budget):
     the regrouped set starts at 5000 (the seeded bug "last instead of max" would give 2000). -/
-example : setStart [⟨0, 9000, 500, some 5000, false, none, 600, false⟩,
-                    ⟨1, 4000, 500, some 2000, false, none, 600, false⟩] = some 5000 := by decide
+example : setStart [⟨0, 9000, 500, some 5000, false, none, 600, 100000, none, 0⟩,
+                    ⟨1, 4000, 500, some 2000, false, none, 600, 100000, none, 0⟩] = some 5000 := by decide
 
 /-- the hypotheses of `regroup_first_rate` are satisfiable: conf target 10, ceiling 8000. -/
 example : ∃ f, newLinear goMulF64 8000 10
-    (setStart [⟨0, 9000, 500, some 5000, false, none, 600, false⟩,
-               ⟨1, 4000, 500, some 2000, false, none, 600, false⟩]) none 253 = .ok f ∧ f.cur = 5000 :=
+    (setStart [⟨0, 9000, 500, some 5000, false, none, 600, 100000, none, 0⟩,
+               ⟨1, 4000, 500, some 2000, false, none, 600, 100000, none, 0⟩]) none 253 = .ok f ∧ f.cur = 5000 :=
   ⟨⟨5000, 8000, 5000, 9, 0, 333333⟩, by decide, rfl⟩
 
 end LndModel.C18
